@@ -67,23 +67,27 @@ Section MS.
         end
     | _, _ => true
     end.
-  (* (c) with sync_retry_delay = 0 every digest requested by a Synchronize and neither arrived nor possibly
-         collected since is named by every request of every later retry tick (if that tick may address anybody) *)
-  Fixpoint mon_retry (asked : list N) (evs : list msev) (obs : list (list mreq)) : bool :=
+  (* (c) with sync_retry_delay = 0 every digest requested by a Synchronize, whose batch has not arrived and which has not been
+         garbage-collected since, is named by every request of every later retry tick (if that tick may address anybody).
+         Garbage collection as the property understands it (NOT the regenerated guards: this is the specification side): a request
+         registered while the synchronizer knew round r0 is collected by Cleanup(r) only when r >= gc_depth and r0 <= r - gc_depth;
+         a Cleanup of a round below gc_depth collects nothing. [cur] = the round of the last Cleanup (0 initially). *)
+  Fixpoint mon_retry_go (cur : N) (asked : list (N * N)) (evs : list msev) (obs : list (list mreq)) : bool :=
     match evs, obs with
     | e :: re, o :: ro =>
         match e with
-        | MSync _ _ _ => mon_retry (flat_map rq_digests o ++ asked) re ro
-        | MArrived d => mon_retry (filter (fun x => negb (x =? d)) asked) re ro
-        | MCleanup _ => mon_retry [] re ro
+        | MSync _ _ _ => mon_retry_go cur (map (fun d => (d, cur)) (filter (fun d => negb (existsb (fun x => fst x =? d) asked)) (flat_map rq_digests o)) ++ asked) re ro
+        | MArrived d => mon_retry_go cur (filter (fun x => negb (fst x =? d)) asked) re ro
+        | MCleanup r => mon_retry_go r (if r <? gc_depth then asked else filter (fun x => r - gc_depth <? snd x) asked) re ro
         | MRetry _ _ =>
             ((negb (delay =? 0)) ||
-             (forallb (fun q => subsetb asked (rq_digests q) && (rq_origin q =? me) && negb (rq_dest q =? me)) o &&
+             (forallb (fun q => subsetb (map fst asked) (rq_digests q) && (rq_origin q =? me) && negb (rq_dest q =? me)) o &&
               (match asked with [] => true | _ => Nat.eqb (length o) (N.to_nat (N.min nodes (N.of_nat (length ms_others)))) end)))
-            && mon_retry asked re ro
+            && mon_retry_go cur asked re ro
         end
     | _, _ => true
     end.
+  Definition mon_retry (asked : list N) (evs : list msev) (obs : list (list mreq)) : bool := mon_retry_go 0 (map (fun d => (d, 0)) asked) evs obs.
 
   Definition msync_case (evs : list msev) (obs : list (list mreq)) : list N :=
     verdict_of [ b2n (outs_agree evs (ms_run me gc_depth delay ms_known ms_init evs) obs);
